@@ -642,8 +642,11 @@ func (a *Agent) RequestCompleted(RequestID uint32) {
 }
 
 func (a *Agent) AddJobToQueue(job Job) []Job {
-	// store the RequestID									
-	a.AddRequest(job)
+	// store the RequestID (a job without one is the teamserver's own - relayed socket data, a close -
+	// and nobody's request: recording it would make request id 0 acceptable for good)
+	if job.RequestID != 0 {
+		a.AddRequest(job)
+	}
 	// if it's a pivot agent then add the job to the parent
 	if a.Pivots.Parent != nil {
 		//logger.Debug("Prepare command for pivot demon: " + a.NameID)
